@@ -9,6 +9,7 @@ UNITS = [
     (M, "InsightsConfig._load_env.<locals>._boolify"),
     (M, "InsightsConfig._load_env"),
     (M, "InsightsConfig._load_command_line"),
+    (M, "InsightsConfig._load_config_file"),
     (M, "InsightsConfig._set_app_config"),
     (M, "InsightsConfig._determine_filename_and_extension"),
     (M, "InsightsConfig._imply_options"),
@@ -41,7 +42,7 @@ LEMMAS = [dict(
         # unknown option names never become settings
         "forall(k, Str, implies(k in a3 and k not in a0, k in DEFAULT_OPTS))",
     ])]
-NOT_CARRIED = ["_load_config_file (ConfigParser): an assumed contract - one _update_dict(file map) or nothing",
+NOT_CARRIED = ["_load_config_file is under contract (one _update_dict(file map) or nothing; nothing escapes; the typed getters are asked for the section that was found - fix 7b8b9e2); the ConfigParser object itself is an assumed library (a section it does not have is a ConfigParser.Error; typed getters deliver a value or ValueError)",
                "argparse / ConfigParser / os.environ deliver arbitrary maps (assumed)",
                "InsightsConfig.__init__ (defaults, kwargs) is not under contract: load_all is verified from an arbitrary option map",
                "a non-string value reaching a path-valued option makes loading fail with TypeError/AttributeError instead of ValueError "
